@@ -6,40 +6,32 @@
    explicit parameters of the statements; nothing is assumed globally. *)
 From Coq Require Import List String NArith ZArith Bool Permutation.
 From GoMC Require Import Base.Bytes Base.Dec Gen.Consts Gen.Gate Model.C05 Model.C07 Model.C19_syntax Model.C19
-  Proofs.C07 Proofs.C19_net Proofs.C19_gate Proofs.C19_play Proofs.C19_disp Proofs.C19_expected Proofs.C19_skel.
+  Proofs.C07 Proofs.C19_net Proofs.C19_gate Proofs.C19_play Proofs.C19_disp Proofs.C19_expected Proofs.C19_skel Proofs.C19_reg.
 Import ListNotations.
 Open Scope Z_scope.
 
 (* ------------------------------------------------------------------ join *)
 (* For EVERY player name, claimed UUID, address, MojangLoginHandler.Threshold (any Go int), LoginChecker
-   that lets the player in (or none), and EVERY interleaving `sch` of the two goroutines (a scheduled
-   goroutine that is blocked or has returned stays put), with a ConfigHandler that sends Finish and
-   reads the acknowledgement:
+   that lets the player in (or none), EVERY ConfigHandler of the two kinds - the stock
+   server.Configurations with ANY list of registries the bot knows and can read (regs_readable; one
+   RegistryData packet per registry, Finish, wait for the acknowledgement) or a handler that only
+   sends Finish and reads the acknowledgement (regs_of = []) - and EVERY interleaving `sch` of the two
+   goroutines (a scheduled goroutine that is blocked or has returned stays put):
    there is ONE final state f - bot joined, AcceptPlayer called, both hold the name the bot sent and
    offline_uuid(name), the server holds the bot's protocol number, both net.Conn hold the same
-   threshold, nothing is in flight, the transcripts are exactly join_c2s / join_s2c - such that the
-   run makes at most n effective steps, has decoded every frame so far under the threshold it was
-   encoded with (clean), can only come to rest in f, can always be completed to f, and a side that has
-   returned has returned in its final state (so join() never returns an error and AcceptConn never
-   returns without calling AcceptPlayer).
-   Guard: sc_cfg = CfgFinishOnly excludes exactly the stock server.Configurations (C19_join_refuted). *)
-Theorem C19_join_partial :
+   threshold, nothing is in flight, the transcripts are exactly join_c2s / join_s2c (with every
+   registry packet, in struct order, between the profile and Finish) - such that the run makes at
+   most n effective steps, has decoded every frame so far under the threshold it was encoded with
+   (clean), can only come to rest in f, can always be completed to f, and a side that has returned has
+   returned in its final state (so join() never returns an error and AcceptConn never returns without
+   calling AcceptPlayer). *)
+Theorem C19_join :
   forall (offline_uuid : list N -> list N) (bc : bcfg) (sc : scfg),
-  sc_cfg sc = CfgFinishOnly -> accepts offline_uuid sc (bc_name bc) ->
+  accepts offline_uuid sc (bc_name bc) -> regs_readable bc (regs_of sc) ->
   exists (f : sys bot srv) (n : nat),
     joined_state offline_uuid bc sc f /\
     every_interleaving offline_uuid bc sc (join_init bc) f n.
 Proof. exact join_all. Qed.
-
-(* the stock server.Configurations: for EVERY name, threshold and interleaving the join FAILS - the bot
-   stops with a registry error (the packet starts with an NBT compound, not a registry id) while the
-   server has already called AcceptPlayer; the Finish frame stays unread. *)
-Theorem C19_join_refuted :
-  forall (offline_uuid : list N -> list N) (bc : bcfg) (sc : scfg),
-  sc_cfg sc = CfgStock -> accepts offline_uuid sc (bc_name bc) ->
-  exists (f : sys bot srv) (n : nat),
-    stock_state bc sc f /\ every_interleaving offline_uuid bc sc (join_init bc) f n.
-Proof. exact stock_all. Qed.
 
 (* refusal: when the LoginChecker refuses (name, offline uuid, the bot's protocol number) with `reason`,
    every interleaving ends with the bot returning DisconnectErr(reason) from the login stage and the
@@ -151,6 +143,19 @@ Theorem C19_dispatch_bundle_atomic :
   handle_game fails e (o1 :: b ++ [o2]) = finish (handle_all fails e b) TEnd.
 Proof. exact bundle_atomic. Qed.
 
+(* ------------------------------------------------------------------ the registry packets *)
+(* Registry.WriteTo then Registry.ReadFrom: the same keys in the same id order with the same values,
+   exactly the bytes written are consumed and what follows is left untouched - for any number of
+   entries, any keys (below 2^31 bytes) and ANY value type whose network-NBT reader inverts its writer
+   (explicit hypothesis; the NBT codec is the subject of C01/C02).  reg_write is the image the model's
+   server sends in every RegistryData packet (compared with the real WriteTo on every stock session). *)
+Theorem C19_registry_roundtrip :
+  forall (V : Type) (nbt_enc : V -> list N) (nbt_dec : dec V),
+  robust nbt_dec -> (forall v rest, run_flat nbt_dec (nbt_enc v ++ rest) = FOk v rest) ->
+  forall (es : list (list N * V)) (rest : list N), keys_fit V es -> (lenN es < 2^31)%N ->
+  run_flat (reg_read V nbt_dec) (reg_write (images V nbt_enc es) ++ rest) = FOk es rest.
+Proof. exact registry_roundtrip. Qed.
+
 (* ------------------------------------------------------------------ the machines are the source's *)
 (* Gen/Gate.v is rendered from the repository on every run by tools/gotrans/gate.go: the bodies of
    join, joinLogin, joinConfiguration, pingAndList, AcceptConn, handshake, AcceptLogin, acceptListPing,
@@ -208,11 +213,23 @@ Theorem C19_skeleton_server_login :
   end.
 Proof. exact srv_login_is_source. Qed.
 
-(* the stock AcceptConfig: registry data, finish, return without reading the acknowledgement *)
+(* the stock AcceptConfig after the repair: the body of its `for` over the tagged fields writes one
+   RegistryData frame (Identifier(tag), the registry) per field, the statements after the loop write
+   Finish and enter the wait loop, whose exit condition is the ServerboundConfigFinishConfiguration id;
+   the model's cfg_phase writes exactly these frames and then waits *)
 Theorem C19_skeleton_server_config :
   forall (offline_uuid : list N -> list N) (sc : scfg) (s : srv), sc_cfg sc = CfgStock ->
-  exists w, run_seg fuel0 (srv_sem sc s) (s_thr s) Gate.server_accept_config = (w, s_thr s, StReturn "err"%string) /\
-            drain (srv_act offline_uuid sc) 4 (s_set s (cfg_phase sc)) = (w, s_set s SJoined).
+  exists body rest,
+    config_parts Gate.server_accept_config = Some (body, rest) /\
+    (forall r, run_seg fuel0 (srv_sem_reg sc s r) (s_thr s) body
+               = ([{| f_thr := s_thr s; f_id := cbConfigRegistryData; f_fields := [FString (fst r); FRaw (snd r)] |}], s_thr s, StEnd)) /\
+    (exists w lb, run_seg fuel0 (srv_sem sc s) (s_thr s) rest = (w, s_thr s, StLoop lb) /\
+       drain (srv_act offline_uuid sc) (List.length (sc_registries sc) + 3) (s_set s (cfg_phase sc))
+       = (map (fun r => {| f_thr := s_thr s; f_id := cbConfigRegistryData; f_fields := [FString (fst r); FRaw (snd r)] |})
+              (sc_registries sc) ++ w, s_set s SConfWait)) /\
+    wait_cond rest (srv_sem sc s) (s_thr s)
+      = Some "packetid.ServerboundPacketID(p.ID) == packetid.ServerboundConfigFinishConfiguration"%string /\
+    sbConfigFinish = pid "packetid.ServerboundConfigFinishConfiguration".
 Proof. exact srv_config_is_source. Qed.
 
 (* the bot's writes before its reads: join (handshake; joinLogin: login start; loop; after both calls
@@ -247,22 +264,23 @@ Proof. exact bot_ping_prelude_is_source. Qed.
 Definition ex_uuid (n : list N) : list N := rev n ++ [7%N].
 Definition ex_bc : bcfg :=
   {| bc_name := [83;116;101;118;101]%N; bc_claim := []; bc_host := [104]%N; bc_port := 25565%N;
-     bc_plugin := fun _ _ => None; bc_cookie := fun _ => None; bc_registry_known := fun _ => false;
+     bc_plugin := fun _ _ => None; bc_cookie := fun _ => None; bc_registry := fun rid _ => if N.eqb (lenN rid) 2 then Some true else None;
      bc_time := 1700000000 |}.
 Definition ex_sc (thr : Z) (refuse : bool) (cfg : cfgmode) : scfg :=
   {| sc_threshold := thr;
      sc_checker := Some (fun _ _ p => if refuse then Some [110;111]%N else if p =? bot_ProtocolVersion then None else Some []);
-     sc_cfg := cfg; sc_registry_blob := [10;0]%N; sc_status := fun p => Some [123; Z.to_N p mod 256; 125]%N |}.
+     sc_cfg := cfg; sc_registries := [([109;99], [0]); ([109;100], [1;1;97;1;10;0])]%N; sc_status := fun p => Some [123; Z.to_N p mod 256; 125]%N |}.
 
-Example C19_join_hyp_ok : accepts ex_uuid (ex_sc 256 false CfgFinishOnly) (bc_name ex_bc).
-Proof. reflexivity. Qed.
+Example C19_join_hyp_ok : accepts ex_uuid (ex_sc 256 false CfgStock) (bc_name ex_bc) /\
+  regs_readable ex_bc (regs_of (ex_sc 256 false CfgStock)).
+Proof. split; [reflexivity|]. repeat constructor. Qed.
 Example C19_refuse_hyp_ok : refuses ex_uuid (ex_sc 0 true CfgStock) (bc_name ex_bc) [110;111]%N.
 Proof. eexists. split; reflexivity. Qed.
-(* the machines really run: greedy schedule, threshold 256, 14 frames/steps, both joined *)
+(* the machines really run: greedy schedule, threshold 256, the stock configuration with two registries *)
 Example C19_join_runs :
-  let f := grun_greedy ex_uuid ex_bc (ex_sc 256 false CfgFinishOnly) 100 (join_init ex_bc) in
+  let f := grun_greedy ex_uuid ex_bc (ex_sc 256 false CfgStock) 100 (join_init ex_bc) in
   b_ph (x_b f) = BJoined /\ s_ph (x_s f) = SJoined /\ b_uuid (x_b f) = [101;118;101;116;83;7]%N /\
-  b_thr (x_b f) = 256 /\ s_thr (x_s f) = 256 /\ List.length (x_s2c_hist f) = 3%nat.
+  b_thr (x_b f) = 256 /\ s_thr (x_s f) = 256 /\ List.length (x_s2c_hist f) = 5%nat.
 Proof. vm_compute. repeat split; reflexivity. Qed.
 (* a server that switched its threshold BEFORE sending set-compression would be caught by `clean`:
    a frame tagged 256 read by a bot still at -1 *)
@@ -295,8 +313,7 @@ Proof.
   - apply SSingle; [reflexivity|constructor].
 Qed.
 
-Print Assumptions C19_join_partial.
-Print Assumptions C19_join_refuted.
+Print Assumptions C19_join.
 Print Assumptions C19_refuse.
 Print Assumptions C19_status.
 Print Assumptions C19_play.
@@ -307,6 +324,7 @@ Print Assumptions C19_dispatch_tables.
 Print Assumptions C19_dispatch_packet.
 Print Assumptions C19_dispatch_game.
 Print Assumptions C19_dispatch_bundle_atomic.
+Print Assumptions C19_registry_roundtrip.
 Print Assumptions C19_skeleton_source.
 Print Assumptions C19_skeleton_ids.
 Print Assumptions C19_skeleton_bot_login.
